@@ -9,7 +9,7 @@ import subprocess
 import sys
 import time
 
-ROOT = '/verif'
+ROOT = os.environ.get('VERIF_ROOT') or os.path.dirname(os.path.dirname(os.path.abspath(__file__)))
 REPO = '/repo'
 OUT = os.path.join(ROOT, 'out')
 COQ = os.path.join(ROOT, 'coq')
